@@ -35,11 +35,17 @@ var c14Templates = []c14Template{
 	{name: "rate_filter", metric: true, build: func(a, _, r string) string { return "rate(" + a + ` |= "r" [` + r + "])" }},
 	{name: "sum_by", metric: true, build: func(a, _, r string) string { return "sum by (container) (count_over_time(" + a + "[" + r + "]))" }},
 	{name: "max_without", metric: true, build: func(a, _, r string) string { return "max without (msg) (count_over_time(" + a + "[" + r + "]))" }},
-	{name: "topk", metric: true, build: func(a, _, r string) string { return "topk(2, sum by (container) (count_over_time(" + a + "[" + r + "])))" }},
+	{name: "topk", metric: true, build: func(a, _, r string) string {
+		return "topk(2, sum by (container) (count_over_time(" + a + "[" + r + "])))"
+	}},
 	{name: "vec_lit", metric: true, build: func(a, _, r string) string { return "count_over_time(" + a + "[" + r + "]) * 2" }},
 	{name: "lit_vec", metric: true, build: func(a, _, r string) string { return "100 - count_over_time(" + a + "[" + r + "])" }},
-	{name: "cmp_bool", metric: true, build: func(a, _, r string) string { return "sum by (container) (count_over_time(" + a + "[" + r + "])) > bool 1" }},
-	{name: "unwrap_max", metric: true, build: func(a, _, r string) string { return "max_over_time(" + a + " | unwrap weight [" + r + "]) by (container)" }},
+	{name: "cmp_bool", metric: true, build: func(a, _, r string) string {
+		return "sum by (container) (count_over_time(" + a + "[" + r + "])) > bool 1"
+	}},
+	{name: "unwrap_max", metric: true, build: func(a, _, r string) string {
+		return "max_over_time(" + a + " | unwrap weight [" + r + "]) by (container)"
+	}},
 	{name: "binop", metric: true, twoSel: true, build: func(a, b, r string) string {
 		return "sum by (container) (count_over_time(" + a + "[" + r + "])) + sum by (container) (count_over_time(" + b + "[" + r + "]))"
 	}},
